@@ -1575,7 +1575,16 @@ coap_oscore_decrypt_pdu(coap_session_t *session,
 #endif /* COAP_CLIENT_SUPPORT */
 
 #if COAP_SERVER_SUPPORT
-  /* Appendix B.1.2 request Trap */
+  /*
+   * Appendix B.1.2 request Trap
+   *
+   * A request that is caught here is not handed to the application, so
+   * nothing is going to answer it: the association set up above for its
+   * response must not stay behind.  The Partial IV of such a request is not
+   * recorded in the Replay Window - the request can be accepted later (under
+   * any token) - and a response sent for the token in between, e.g. to an
+   * unprotected request, would use the same nonce as the response to it.
+   */
   if (coap_request && osc_ctx->rfc8613_b_1_2) {
     if (rcp_ctx->initial_state == 1) {
       opt = coap_check_option(plain_pdu, COAP_OPTION_ECHO, &opt_iter);
@@ -1592,6 +1601,9 @@ coap_oscore_decrypt_pdu(coap_session_t *session,
                                      NULL,
                                      NULL,
                                      0);
+            oscore_delete_association(session,
+                                      oscore_find_association(session,
+                                                              &pdu_token));
             goto error_no_ack;
           }
           /*
@@ -1601,8 +1613,12 @@ coap_oscore_decrypt_pdu(coap_session_t *session,
            * restart, so all of them count as received.
            */
           rcp_ctx->sliding_window = ~(uint64_t)0;
-        } else
+        } else {
+          oscore_delete_association(session,
+                                    oscore_find_association(session,
+                                                            &pdu_token));
           goto error;
+        }
       } else {
         /* RFC 8163 Appendix B.1.2 */
         if (session->b_2_step == COAP_OSCORE_B_2_STEP_4) {
@@ -1618,6 +1634,9 @@ coap_oscore_decrypt_pdu(coap_session_t *session,
                                  rcp_ctx->echo_value,
                                  NULL,
                                  1);
+        oscore_delete_association(session,
+                                  oscore_find_association(session,
+                                                          &pdu_token));
         goto error_no_ack;
       }
     }
